@@ -152,6 +152,37 @@ theorem inv_step (c : Cfg) (s : St) (op : Op) (h : Inv s) : Inv (step c s op).1 
             show (if s.cur + 1 < s.players.length then s.cur + 1 else 0) < s.players.length
             split <;> omega
   | endGame => exact ⟨Or.inl rfl, fun hp => absurd rfl hp⟩
+  | modeStop => exact ⟨Or.inl rfl, h2⟩
+  | modeStart =>
+    simp only [step]
+    split
+    · exact ⟨h1, h2⟩
+    · split
+      · exact ⟨h1, h2⟩
+      · refine ⟨Or.inr ?_, fun _ => ?_⟩
+        · rw [modeStart_dev, modeStart_cur]
+        · rw [modeStart_cur, modeStart_length]; exact h2 (by assumption)
+  | drainPre =>
+    simp only [step]
+    split
+    · exact ⟨h1, h2⟩
+    · rename_i hne
+      have hc := h2 hne
+      split
+      · refine ⟨Or.inr ?_, fun _ => ?_⟩
+        · rw [setOn_dev, setOn_cur, modeStart_dev, modeStart_cur]
+        · rw [setOn_cur, setOn_players, modify_length, modeStart_cur, modeStart_length]; exact hc
+      · split
+        · exact ⟨Or.inl rfl, fun hp => absurd rfl hp⟩
+        · refine ⟨Or.inr ?_, fun _ => ?_⟩
+          · rw [turnStart_dev, turnStart_cur]
+          · rw [turnStart_cur, turnStart_length]
+            show (if s.cur + 1 < (modeStart c { s with dev := none } s.cur).players.length then s.cur + 1 else 0)
+              < (modeStart c { s with dev := none } s.cur).players.length
+            rw [modeStart_length]
+            by_cases hh : s.cur + 1 < s.players.length
+            · rw [if_pos hh]; exact hh
+            · rw [if_neg hh]; exact Nat.lt_of_le_of_lt (Nat.zero_le _) hc
 
 /-- one request leaves the dictionary of every player who is neither up before nor after it untouched -/
 theorem frame_step (c : Cfg) (s : St) (op : Op) (h : Inv s) (q : Nat) (hq : q < s.players.length)
@@ -216,6 +247,28 @@ theorem frame_step (c : Cfg) (s : St) (op : Op) (h : Inv s) (q : Nat) (hq : q < 
           rw [turnStart_cur] at h2
           rw [turnStart_other _ _ _ _ h2]
   | endGame => simp [step] at hg
+  | modeStop => rfl
+  | modeStart =>
+    simp only [step]
+    split
+    · rfl
+    · split
+      · rfl
+      · exact modeStart_other _ _ _ _ h1
+  | drainPre =>
+    simp only [step] at hg h2 ⊢
+    split
+    · rfl
+    · split
+      · rw [setOn_players, modify_get_other _ _ _ _ (by rw [modeStart_cur]; exact h1)]
+        exact modeStart_other _ _ _ _ h1
+      · split
+        · rename_i hx; simp [*] at hg
+        · rename_i hp hx hy
+          simp only [hp, hx, hy, if_false] at h2
+          rw [turnStart_cur] at h2
+          rw [turnStart_other _ _ _ _ h2]
+          exact modeStart_other _ _ _ _ h1
 
 end MpfVerif.Player
 
@@ -251,6 +304,20 @@ theorem step_length_mono (c : Cfg) (s : St) (op : Op) (hg : (step c s op).1.play
         · rename_i hx; simp [*] at hg
         · simp [turnStart_length]
   | endGame => simp [step] at hg
+  | modeStop => simp [step]
+  | modeStart =>
+    simp only [step]; split
+    · simp
+    · split <;> simp [modeStart_length]
+  | drainPre =>
+    simp only [step] at hg ⊢
+    split
+    · simp
+    · split
+      · simp [setOn_players, modify_length, modeStart_length]
+      · split
+        · rename_i hx; simp [*] at hg
+        · simp [turnStart_length, modeStart_length]
 
 end MpfVerif.Player
 
